@@ -8,27 +8,29 @@ T_TEXT = ("The harness drives the real code with seeded random configurations in
           "(Trace_Api over ScannerApi/Tokenizer/RegexSem); ")
 G_TEXT = ("TLC enumerates all behaviours of the user-level specification (ScannerApi/Tokenizer/RegexSem) inside small bounds "
           "(pattern universe, input length, history depth) and each behaviour is replayed through the public API and compared result by result; ")
-NOTE = "bounded worlds / sampled random histories; harness concretisation, atom computation and regex printer; regex-syntax parser; TLC and its Json module"
+NOTE = ("bounded worlds / sampled random histories; harness concretisation (atoms -> characters, abstract token types / peek counts / offsets -> usize values "
+        "up to usize::MAX), atom computation and regex printer; regex-syntax parser; TLC and its Json module")
+PROOF = " The choice rule of the specification itself (candidates = non-empty matches with satisfied lookahead; maximal extent, then first listed) is proved for all inputs with TLAPS (TokProofs, 118 obligations)."
 TECH = "TLA+ spec (ScannerApi) + TLC: generated behaviours replayed into the code, recorded executions validated by TLC"
 CHECKS = {
- "C01": ("model_checking", "5 C01", G_TEXT + "modes without lookahead: longest match, priority, skipping, byte spans.", NOTE, TECH),
+ "C01": ("model_checking", "5 C01", G_TEXT + "modes without lookahead: longest match, priority, skipping, byte spans; token types concretised up to usize::MAX." + PROOF, NOTE, TECH),
  "C02": ("translation_validation", "5 C02", "For every mode and lookahead of generated, random and corpus configurations the compiled automaton is dumped (hook) and TLC explores its product with the specification's own position automaton of the source patterns over the atoms of all 1,112,064 scalars; equal accepted token-type sets in every reachable product state decides language equality for ALL strings; static conjuncts: registered class ids, accepting types, empty string not accepted.", "hooks verif_dump/verif_eval_class are faithful copies; leaf membership measured through the public API; TLC; regex-syntax", "TLA+ spec (Equiv over RegexSem's Glushkov automaton) + TLC product exploration on automaton dumps"),
  "C03": ("translation_validation", "5 C03", "Every (input, output) pair of Minimizer::minimize recorded while building the C02 program set is compared by TLC product exploration over atoms: same accepted types after every string, start state preserved, no more states than before.", "hook records the automata entering and leaving the minimizer; TLC", "TLA+ spec (Equiv) + TLC product exploration on minimizer input/output dumps"),
- "C04": ("model_checking", "5 C04", G_TEXT + T_TEXT + "modes mixing positive, negative and no lookaheads, with with_offset/set_offset.", NOTE, TECH),
- "C05": ("model_checking", "5 C05", G_TEXT + T_TEXT + "modes with two or more patterns and lookaheads: the reported token must be a member of Tokenizer!Best (maximal extent, then first pattern); a panic is an unexplained event.", NOTE, TECH),
+ "C04": ("model_checking", "5 C04", G_TEXT + T_TEXT + "modes mixing positive, negative and no lookaheads, with with_offset/set_offset." + PROOF, NOTE, TECH),
+ "C05": ("model_checking", "5 C05", G_TEXT + T_TEXT + "modes with two or more patterns and lookaheads: the reported token must be a member of Tokenizer!Best (maximal extent, then first pattern); a panic is an unexplained event." + PROOF, NOTE, TECH),
  "C06": ("model_checking", "5 C06", G_TEXT + T_TEXT + "random mode graphs, set_mode on iterators and scanners, new iterators; current_mode() is compared after every call.", NOTE, TECH),
  "C07": ("model_checking", "5 C07", G_TEXT + T_TEXT + "hostile configurations (nullable patterns, 1-4 byte characters, empty inputs), calls after exhaustion; WellFormed/Progress are invariants of the specification and every logged token must be one the specification allows.", NOTE, TECH),
  "C09": ("model_checking", "5 C09", G_TEXT + T_TEXT + "WithPositions iterators, position queries for scanned offsets, resets to earlier offsets, exhaustion.", NOTE, TECH),
  "C10": ("model_checking", "5 C10", G_TEXT + T_TEXT + "with_offset/set_offset to every kind of boundary, peek_n + advance_to, set_mode.", NOTE, TECH),
- "C11": ("model_checking", "5 C11", G_TEXT + T_TEXT + "peek_n(n) at random points of random histories; token list, classification, target mode and purity (later calls) are checked.", NOTE, TECH),
- "C13": ("model_checking", "5 C13", "TLC enumerates all sequences of cached builds over a base configuration, its one-field neighbours (token type, order, lookahead, polarity, transition, mode name, spelling) and configurations that do not build; each sequence runs in a fresh process through build(), is scanned on all probe inputs and compared with Tokenizer's prescription for that configuration and with a build_uncached twin.", NOTE, "TLA+ spec (Gen_Cache over ScannerApi!Build) + TLC-generated build sequences replayed in fresh processes"),
+ "C11": ("model_checking", "5 C11", G_TEXT + T_TEXT + "peek_n(n) at random points of random histories; token list, classification, target mode and purity (later calls) are checked, for n = 0..5 and n = usize::MAX; the peek_n loop is also modelled in layer B (IterImpl!PeekLoop) and TLC checks that it refines the user-level PeekResults (and refutes the loop as it was before repair D6).", NOTE, TECH),
+ "C13": ("model_checking", "5 C13", "TLC enumerates all sequences of cached builds over a base configuration, its one-field neighbours (token type, order, lookahead, polarity, transition, mode name, spelling) and configurations that do not build; each sequence runs in a fresh process through build(), is scanned on all probe inputs and compared with Tokenizer's prescription for that configuration and with a build_uncached twin; in addition two valid configurations constructed to have the same FxHash (the cache's hasher) are built through the cache and scanned, recorded and validated by TLC.", NOTE, "TLA+ spec (Gen_Cache over ScannerApi!Build) + TLC-generated build sequences replayed in fresh processes"),
  "C15": ("model_checking", "5 C15", "TLC enumerates supported host regexes with one documented-unsupported construct planted at every node position (pattern or lookahead, first or second mode) and replays the builds; random strings over the regex meta-alphabet are built by the harness and TLC validates the verdict (Err iff syntax error or unsupported construct) - a panic is never a behaviour.", NOTE + "; the harness' translation of the regex-syntax AST marks unsupported nodes", TECH),
  "C08": ("exploration", "5 C08", "TLC enumerates class-expression shapes (union, &&, --, ~~, negation and redundant nesting at any level over 5 base symbols) and defines Member(expr, atom); the harness instantiates the symbols from a table of 51 concrete items, measures every base item alone and every whole expression over ALL 1,112,064 scalars through the public API, and TLC compares the measured membership with Member on every realised atom; the base facts (literal, dot, ASCII parts of \\d \\s \\w, complements, inclusive range bounds) are checked by TLC on the measured tables. Exhaustive in the character domain, bounded/sampled in expression depth.", "items used alone are measured through the public API; TLC; regex-syntax", "TLA+ spec (CharClass!Member) evaluated by TLC on atoms measured over all scalars"),
- "C16": ("model_checking", "5 C16", "TLC enumerates abstract mode lists and Match/MatchExt/Span/Position values in the README layout and writes them with its own JSON serialiser; the harness deserialises them into the Rust types, compares with API-built values, re-serialises with serde_json, builds and scans both; TLC reads serde's text back and compares it with the abstract value; the README's JSON block is read verbatim.", "TLC's Json module as layout oracle; serde_json; numbers up to 2^31-1", "TLA+ spec (SerdeLayout) + TLC both ways through its own JSON serialiser"),
+ "C16": ("model_checking", "5 C16", "TLC enumerates abstract mode lists and Match/MatchExt/Span/Position values in the README layout and writes them with its own JSON serialiser; the harness deserialises them into the Rust types, compares with API-built values, re-serialises with serde_json, builds and scans both; TLC reads serde's text back and compares it with the abstract value; the README's JSON block is read verbatim.", "TLC's Json module as layout oracle; serde_json; token types concretised above 2^40, other numbers up to 2^31-1", "TLA+ spec (SerdeLayout) + TLC both ways through its own JSON serialiser"),
  "C18": ("translation_validation", "5 C18", "For generated, random, corpus and specially named configurations generate_compiled_automata_as_dot is called, every file is parsed with a parser for the DOT language as Graphviz defines it and TLC decides per file whether the parsed graph equals DotPicture!Picture(dump) (nodes, accepting labels, edges with class ids, one cluster per lookahead with polarity); directory listing (one file per mode, prefix_name.dot) and three unwritable-folder cases (must return Err).", "the harness' DOT parser; verif_dump hook; TLC", "TLA+ spec (DotPicture) relating the automaton dump to the parsed DOT file, decided by TLC"),
- "C14": ("model_checking", "5 C14", "The cache under its write lock is modelled with one action per step of ScannerCache::get (CacheConc); TLC checks exhaustively for 3 threads and all build programs that the cache stays coherent, every thread gets the sequential results and all programs terminate under weak fairness. For the code, N threads released by a barrier run seeded programs of builds and scans; the event log emitted by the hooks under the lock is validated by TLC against CacheConc's actions, every thread's calls against the sequential ScannerApi, a hang is a violation, and a probe crate decides Send + Sync at compile time. Sampled schedules, not all schedules.", "sampled real schedules; hooks emit events under the cache lock; TLC", "TLA+ spec (CacheConc) model-checked exhaustively + trace validation of recorded multi-threaded executions"),
+ "C14": ("model_checking", "5 C14", "The cache under its write lock is modelled with one action per step of ScannerCache::get (CacheConc); TLC checks exhaustively for 3 threads and all build programs that the cache stays coherent, every thread gets the sequential results and all programs terminate under weak fairness. For the code, N threads released by a barrier run seeded programs of builds and scans (first-use rounds behind spin barriers, re-scan bursts, shared and private scanners, lookaheads); the event log emitted by the hooks under the lock is validated by TLC against CacheConc's actions, every thread's calls against the sequential ScannerApi, a hang is a violation, and a probe crate decides Send + Sync at compile time. Sampled schedules, not all schedules.", "sampled real schedules; hooks emit events under the cache lock; TLC", "TLA+ spec (CacheConc) model-checked exhaustively + trace validation of recorded multi-threaded executions"),
  "C17": ("exploration", "5 C17", "Full-scale configurations crossing 2^16 automaton states (65 700 one-character patterns; thorough: a{66000}b) are built through the public API, scanned around the critical indices and the recorded calls are validated by TLC against the ordinary Tokenizer specification; a build error is admissible, a wrong token or a panic is a violation.", "a handful of full-scale cases; build time dominates", "recorded full-scale executions validated by TLC against the TLA+ Tokenizer specification"),
- "C12": ("model_checking", "5 C12", G_TEXT + T_TEXT + "up to five interleaved iterators over one scanner, scanner-level set_mode, cached and uncached builds.", NOTE, TECH),
+ "C12": ("model_checking", "5 C12", G_TEXT + T_TEXT + "up to five interleaved iterators over one scanner and over two scanners sharing one cached compilation, scanner-level set_mode, cached and uncached builds.", NOTE, TECH),
 }
 NOT_YET = {
 }
